@@ -1,6 +1,6 @@
 (* C04/Properties.v — the property theorems, nothing else.  Each is closed by [exact lemma] and followed
    by Print Assumptions (captured into the evidence by the check driver). *)
-From Verif Require Import Common.Base C04.Model C04.Proofs C04.Proofs2 C04.Proofs3 C04.Proofs4 C04.Proofs5 C04.Proofs6 C04.Proofs7 C04.Proofs8 C04.Harness C04.Obligations.
+From Verif Require Import Common.Base C04.Model C04.Proofs C04.Proofs2 C04.Proofs3 C04.Proofs4 C04.Proofs5 C04.Proofs6 C04.Proofs7 C04.Proofs8 C04.Harness C04.Obligations C04.Checker C04.CheckerProofs.
 From Coq Require Import Permutation.
 Local Open Scope Z_scope.
 
@@ -256,3 +256,42 @@ Theorem done_error_only_items_refuted_payload :
   b_fired (run fe_hist) = [(0%nat, true); (1%nat, true)].
 Proof. exact foreign_error_payload_witness. Qed.
 Print Assumptions done_error_only_items_refuted_payload.
+
+
+(* ================================================================================================== *)
+(* 7. conservation for ANY SEQUENCE of requests through the batcher (logs / traces / profiles)        *)
+(* ================================================================================================== *)
+(* [crun] = [brun] of the payload batcher with two ghosts: the consumed requests and the items of the batches whose
+   export has returned.  After any history (any number of requests, timer flushes, export results in any order with
+   any outcome, shutdown): parked + in flight + exported = entered, as multisets of items (with their sizes and
+   weights; their contexts are conserved by every MergeSplit: section 1). *)
+Theorem batcher_conserves : forall w sz max min, 0 <= max -> (max = 0 \/ min <= max) -> forall es,
+  wf_events w sz es ->
+  let '(st, n, rs, F) := crun w sz max min es in
+  Permutation (cur_items st ++ fly_items st ++ F) (items_reqs rs).
+Proof. exact batcher_conserves_l. Qed.
+Print Assumptions batcher_conserves.
+
+(* "only after every batch containing part of it has finished", in items: once request i's callback has fired, no
+   batch in flight holds an item owned by i alone *)
+Theorem done_only_after_batches_items : forall w sz max min, 0 <= max -> (max = 0 \/ min <= max) -> forall es,
+  wf_events w sz es ->
+  let '(st, n, rs) := krun w sz max min es in
+  forall i, 0 < fcount i (b_fired st) ->
+    forall b r ds x, In (b, r, ds) (b_flying st) -> In x (ritems r) -> owner rs i x ->
+      (forall j, owner rs j x -> j = i) -> False.
+Proof. exact done_only_after_items_l. Qed.
+Print Assumptions done_only_after_batches_items.
+
+(* ================================================================================================== *)
+(* 8. the decidable clause checker run over every observed case (Checker.v) says what the clauses say  *)
+(* ================================================================================================== *)
+Theorem checker_sound_mergesplit : forall signal sz max a b obs,
+  clauses_l3 signal sz max a b obs = 0 <-> Clause_l3 signal sz max a b obs.
+Proof. exact clauses_l3_sound. Qed.
+Print Assumptions checker_sound_mergesplit.
+
+Theorem checker_sound_batcher : forall max failed evs batches fired,
+  clauses_bat max failed evs batches fired = 0 -> Clause_bat_core evs batches fired.
+Proof. exact clauses_bat_sound. Qed.
+Print Assumptions checker_sound_batcher.
